@@ -28,6 +28,9 @@ Only these lexical normalisations are applied to copied text (each counted, see 
      (same meaning in Rust whenever both compile: the bindings inside PAT copy out of the reference)
   N6 (only with option `iter` on an assumed accessor) the return type `impl Iterator<Item = X> [+ '_]` is replaced by the
      prelude's `CopyIter<'_, X>` (Verus has no `impl Trait` returns); the accessor's contract is assumed
+  N7 (only with option `tail-loop` on a function whose body ends in a single `loop { .. }` expression) `break EXPR;` inside that
+     loop becomes `return EXPR;` (the loop is the function's tail expression, so breaking out of it with a value IS returning
+     that value; Verus has no `break` with a value)
 No expression is rewritten otherwise. Ghost text (loop invariants, proof blocks) named in the unit template is spliced
 into bodies at loop ordinals / after exact statement texts, always on the same output line so that line numbers of the
 body still correspond to the source (annotation in place; ghost code only, erased at compile time).
@@ -383,7 +386,7 @@ class Normaliser:
     def __init__(self):
         self.counts = {'N1_visibility': 0, 'N2_attrs_docs_dropped': 0, 'N3_ret_named_contract_spliced': 0,
                        'N4_cfg_statistics_or_allow_dropped': 0, 'N5_ref_pattern_desugared': 0,
-                       'N6_impl_iterator_return_type': 0, 'G_ghost_splices': 0}
+                       'N6_impl_iterator_return_type': 0, 'N7_tail_loop_break_value': 0, 'G_ghost_splices': 0}
 
     def vis(self, s):
         def rep(m):
@@ -589,6 +592,14 @@ class Normaliser:
                     body = body[:ob + 1] + ' ' + t + body[ob + 1:]
                 else:
                     body = body[:cb] + t + ' ' + body[cb:]
+            elif kind == 'bare-loop':
+                # invariant text for the k-th `loop { .. }` (inserted between the keyword and the opening brace)
+                k = int(arg.split()[0])
+                lps = [m for m in sc.finditer_code(r'\bloop\b')]
+                if k >= len(lps):
+                    raise AnchorLost(f'ghost splice: bare loop {k} not found')
+                j = lps[k].end()
+                body = body[:j] + ' ' + t + ' ' + body[j:]
             elif kind.split('#')[0] in ('after', 'before'):
                 # anchor = exact statement text (whitespace-insensitive); `before#k/n` / `after#k/n`: the k-th of exactly n
                 # occurrences; without a suffix the text must occur exactly once
@@ -753,6 +764,22 @@ def expand(template_path, repo):
             body = norm.body(body)
             if not external:
                 body = norm.refpat(body)
+                if 'tail-loop' in opts:
+                    sc7 = Scan(body)
+                    loops = [m for m in sc7.finditer_code(r'\b(loop|while|for)\b')]
+                    if len(loops) != 1 or loops[0].group(1) != 'loop':
+                        raise AnchorLost(f'{rel}: fn {qn}: option tail-loop needs exactly one `loop` and no other loop')
+                    ob7 = sc7.next_code_char('{', loops[0].end())
+                    cb7 = sc7.match[ob7]
+                    if body[cb7 + 1:].strip() != '}':
+                        raise AnchorLost(f'{rel}: fn {qn}: option tail-loop: the loop is not the tail expression')
+                    inner = body[ob7:cb7 + 1]
+                    n7 = len([m for m in Scan(inner).finditer_code(r'\bbreak\s+[^;\s][^;]*;')])
+                    if n7 == 0:
+                        raise AnchorLost(f'{rel}: fn {qn}: option tail-loop: no `break <value>;`')
+                    inner2 = re.sub(r'\bbreak(\s+[^;\s][^;]*;)', r'return\1', inner)
+                    body = body[:ob7] + inner2 + body[cb7 + 1:]
+                    norm.counts['N7_tail_loop_break_value'] += n7
                 if splices:
                     body = norm.splice(body, [tuple(x) for x in splices])
             if 'iter' in opts and sp['ret'] is not None:
